@@ -220,6 +220,48 @@ TARGETS = [
          fns=[
         ("SimpleValidator", "validate_onchain_tx", "C08", "C08_fn_validate_onchain_tx"),
     ]),
+    # ---- C09: decode_and_validate_htlc_tx (recomposition of the second-level HTLC transaction, sighash comparison)
+    dict(area="HtlcTx", rel="vls-core/src/policy/simple_validator.rs", consts=[],
+         structs=["vls-core/src/channel.rs"], log_macros=["dbgvals"],
+         views="""
+             pub struct TxIn { pub previous_output: OutPoint }
+             pub struct OutPoint { pub txid: Txid, pub vout: u32 }
+             pub struct TxOut { pub value: u64 }
+             pub struct TxCreationKeys { pub broadcaster_delayed_payment_key: DelayedPaymentKey, pub revocation_key: RevocationKey }
+             pub struct HTLCOutputInCommitment { pub offered: bool, pub amount_msat: u64, pub cltv_expiry: u32, pub payment_hash: PaymentHash, pub transaction_output_index: Option<u32> }
+         """,
+         externals={
+             "is_anchors": dict(receiver="ChannelSetup", params=["ChannelSetup"], ret="bool"),
+             "is_zero_fee_htlc": dict(receiver="ChannelSetup", params=["ChannelSetup"], ret="bool"),
+             "features": dict(receiver="ChannelSetup", params=["ChannelSetup"], ret="ChannelTypeFeatures"),
+             # the rust-bitcoin Transaction stays opaque (it is the argument of the sighash external): its three projections
+             "tx_locktime": dict(params=["Transaction"], ret="u32"),
+             "tx_inputs": dict(params=["Transaction"], ret="Vec<TxIn>"),
+             "tx_outputs": dict(params=["Transaction"], ret="Vec<TxOut>"),
+             "sighash_all": dict(params=[], ret="EcdsaSighashType"),
+             "sighash_single_acp": dict(params=[], ret="EcdsaSighashType"),
+             # SighashCache::new(tx).p2wsh_signature_hash(0, script, amount, type): Err (no input 0) seen as None
+             "p2wsh_sighash": dict(params=["Transaction", "ScriptBuf", "u64", "EcdsaSighashType"], ret="Option<SegwitV0Sighash>"),
+             "is_offered_htlc_script": dict(params=["ScriptBuf", "bool"], ret="bool"),
+             "is_received_htlc_script": dict(params=["ScriptBuf", "bool"], ret="bool"),
+             "htlc_timeout_tx_weight": dict(params=["ChannelTypeFeatures"], ret="u64"),
+             "htlc_success_tx_weight": dict(params=["ChannelTypeFeatures"], ret="u64"),
+             # util::transaction_utils::estimate_feerate_per_kw (translated in area TxUtil): division by the weight
+             "estimate_feerate_per_kw": dict(params=["u64", "u64"], ret="u32", may_panic=True),
+             "zero_payment_hash": dict(params=[], ret="PaymentHash"),
+             # LDK build_htlc_transaction: `Amount` subtraction inside can panic
+             "build_htlc_transaction": dict(params=["Txid", "u32", "u16", "HTLCOutputInCommitment", "ChannelTypeFeatures",
+                                                    "DelayedPaymentKey", "RevocationKey"], ret="Transaction", may_panic=True),
+         },
+         normalise={
+             ("SimpleValidator", "decode_and_validate_htlc_tx"): [
+                 "sighash_type_acp", "sighash_type_all", "orig_sighash", "parse_offered_ok", "parse_received_ok", "offered_let", "value_to_sat",
+                 "tx_locktime", "tx_input0", "tx_output0",
+                 "zero_payment_hash", "recomposed_sighash", "mismatch_debug"],
+         },
+         fns=[
+        ("SimpleValidator", "decode_and_validate_htlc_tx", "C09", "C09_fn_decode_and_validate_htlc_tx"),
+    ]),
     # ---- C08 / C09: `impl Wallet for Node` (can_spend, allowlist_contains) and the key-path rule of get_wallet_privkey
     dict(area="NodeWallet", rel="vls-core/src/node.rs", consts=[], structs=[], any_order=True,
          error_ctors={"invalid_argument": "invalid-argument"},
@@ -310,6 +352,37 @@ RULES = {
         "let script_pubkey = funding_script_pubkey(&chan.keys, wallet);",
         "the channel's p2wsh funding script (a function of both funding pubkeys held by `chan.keys` and of the network) as one external"),
     "unknowns_type": (r"let mut unknowns = Vec::new\(\);", "let mut unknowns: Vec<usize> = Vec::new();", "element type made explicit"),
+    # ---- decode_and_validate_htlc_tx
+    "sighash_type_acp": (r"EcdsaSighashType::SinglePlusAnyoneCanPay", "sighash_single_acp()", "rust-bitcoin constant as an external"),
+    "sighash_type_all": (r"EcdsaSighashType::All", "sighash_all()", "rust-bitcoin constant as an external"),
+    "orig_sighash": (
+        r"SighashCache::new\(tx\)\s*\.p2wsh_signature_hash\(0, &redeemscript, Amount::from_sat\(htlc_amount_sat\), sighash_type\)\s*"
+        r"\.map_err\(\|_\| \{\s*policy_error\(\s*(\"policy-commitment-other\"),\s*\"could not compute sighash on provided HTLC tx\",\s*\)\s*\}\)\?",
+        r"p2wsh_sighash(tx, &redeemscript, htlc_amount_sat, sighash_type).ok_or_else(|| policy_error(\1, String::new()))?",
+        "BIP-143 sighash of input 0 as one external; its `Err` (no such input) seen as `None`, mapped to the same policy tag"),
+    "parse_offered_ok": (r"parse_offered_htlc_script\(redeemscript, setup\.is_anchors\(\)\)\.is_ok\(\)",
+                         "is_offered_htlc_script(redeemscript, setup.is_anchors())", "only whether the script parses is used"),
+    "parse_received_ok": (r"parse_received_htlc_script\(redeemscript, setup\.is_anchors\(\)\)\.is_ok\(\)",
+                          "is_received_htlc_script(redeemscript, setup.is_anchors())", "only whether the script parses is used"),
+    "offered_let": (
+        r"let offered = if (is_offered_htlc_script\(redeemscript, setup\.is_anchors\(\)\)) \{\s*true\s*\} else if "
+        r"(is_received_htlc_script\(redeemscript, setup\.is_anchors\(\)\)) \{\s*false\s*\} else \{\s*dbgvals!\(.*?\);\s*"
+        r"return Err\(policy_error\(\"policy-commitment-scripts\", \"invalid redeemscript\"\)\);\s*\};",
+        r'if !\1 && !\2 { return Err(policy_error("policy-commitment-scripts", "invalid redeemscript")); } let offered = \1;',
+        "`let x = if a { true } else if b { false } else { log; return Err(e) }` as the guard `if !a && !b { return Err(e) }` "
+        "followed by `let x = a` (a, b: side-effect-free parser calls)"),
+    "tx_locktime": (r"tx\.lock_time\.to_consensus_u32\(\)", "tx_locktime(tx)", "projection of the opaque Transaction as an external"),
+    "tx_input0": (r"tx\.input\[0\]", "tx_inputs(tx)[0]", "projection of the opaque Transaction as an external (the indexing stays)", 2),
+    "tx_output0": (r"tx\.output\[0\]", "tx_outputs(tx)[0]", "projection of the opaque Transaction as an external (the indexing stays)"),
+    "zero_payment_hash": (r"PaymentHash\(\[0; 32\]\)", "zero_payment_hash()", "a constant value (the field is not used by the recomposition)"),
+    "recomposed_sighash": (
+        r"SighashCache::new\(&recomposed_tx\)\s*\.p2wsh_signature_hash\(0, &redeemscript, Amount::from_sat\(htlc_amount_sat\), sighash_type\)\s*\.unwrap\(\)",
+        "p2wsh_sighash(&recomposed_tx, &redeemscript, htlc_amount_sat, sighash_type).unwrap()",
+        "the same sighash external; the `unwrap` stays"),
+    "mismatch_debug": (
+        r"let \(revocation_key, contest_delay, delayed_pubkey\) =\s*parse_revokeable_redeemscript\(output_witscript, setup\.is_anchors\(\)\)"
+        r"\s*\.unwrap_or_else\(\|_\| \(vec!\[\], 0, vec!\[\]\)\);\s*debug!\(.*?\);\s*debug!\(.*?\);\s*(?=return Err\(policy_error\(\"policy-htlc-other\")",
+        "", "values computed only for the two debug! lines that follow (logging)"),
     # ---- node.rs: impl Wallet for Node
     "account_privkey": (
         r"let xkey =\s*self\.get_account_extended_key\(\)\.derive_priv\(&self\.secp_ctx, &derivation_path\)\.unwrap\(\);\s*"
@@ -340,7 +413,7 @@ RULES = {
 }
 
 
-DOTALL = ("inner_macro_def",)
+DOTALL = ("inner_macro_def", "mismatch_debug", "offered_let")
 
 
 def make_rewriter(rel, plan):
